@@ -19,6 +19,7 @@ import ClairModel.Proofs.RhcTag
 import ClairModel.Proofs.RhcTagShape
 import ClairModel.Proofs.Semver
 import ClairModel.Proofs.Pep440
+import ClairModel.Proofs.Pep440Range
 
 -- every variable of a property statement is bound explicitly: a misspelt name is an error, not a new variable
 set_option autoImplicit false
@@ -348,6 +349,70 @@ theorem pep440_criterion_meaning (c v : Pep440.Ver) :
     ((⟨.lt, c⟩ : Pep440.Criterion).matches v = true ↔ Pep440.cmp v c = .lt) ∧
     ((⟨.gt, c⟩ : Pep440.Criterion).matches v = true ↔ Pep440.cmp v c = .gt) := by
   simp [Pep440.Criterion.matches]
+
+/-- `Range.AND` / a comma in a specifier is conjunction. -/
+theorem pep440_range_conjunction (a b : List Pep440.Criterion) (v : Pep440.Ver) :
+    Pep440.rangeMatch (a ++ b) v = (Pep440.rangeMatch a v && Pep440.rangeMatch b v) :=
+  Pep440.rangeMatch_append a b v
+
+/-- **`Match` ⇔ the specifier's meaning.**  For every specifier text
+    `ParseRange` accepts: the range matches `v` exactly when every
+    comma-separated part of the text (white space removed) matches, a part
+    being the operator text up to its last operator character applied to the
+    version parsed from the rest (`opCriteria`, characterised by
+    `pep440_operator_table`). -/
+theorem pep440_range_spec (s : List Char) (cs : List Pep440.Criterion) (h : Pep440.parseRange s = some cs)
+    (v : Pep440.Ver) :
+    Pep440.rangeMatch cs v = true ↔
+      ∀ p ∈ Version.splitOn ',' (s.filter fun c => !Pep440.isSpace c),
+        ∃ c, Pep440.parseCriterion p = some c ∧ Pep440.rangeMatch c v = true :=
+  Pep440.parseCriteria_spec _ cs h v
+
+/-- The operator table of `ParseRange`: exactly `==`, `!=`, `<=`, `>=`, `<`,
+    `>` (one criterion with that comparison, see `pep440_criterion_meaning`)
+    and `~=` (two criteria, at least two release segments); everything else —
+    in particular `===` — is an error. -/
+theorem pep440_operator_table (o : List Char) (c : Pep440.Ver) (cs : List Pep440.Criterion)
+    (h : Pep440.opCriteria o c = some cs) :
+    (o = ['=', '='] ∧ cs = [⟨.eq, c⟩]) ∨ (o = ['!', '='] ∧ cs = [⟨.ne, c⟩]) ∨ (o = ['<', '='] ∧ cs = [⟨.le, c⟩]) ∨
+    (o = ['>', '='] ∧ cs = [⟨.ge, c⟩]) ∨ (o = ['<'] ∧ cs = [⟨.lt, c⟩]) ∨ (o = ['>'] ∧ cs = [⟨.gt, c⟩]) ∨
+    (o = ['~', '='] ∧ 2 ≤ c.release.length ∧ cs = [⟨.ge, c⟩, ⟨.lt, Pep440.compatUpper c⟩]) :=
+  Pep440.opCriteria_cases h
+
+/-- Arbitrary equality `===` is rejected for every version text. -/
+theorem pep440_arbitrary_equality_rejected (part : List Char)
+    (h : (Pep440.splitAtLastOp part).1 = ['=', '=', '=']) : Pep440.parseCriterion part = none := by
+  unfold Pep440.parseCriterion
+  cases Pep440.parse (Pep440.splitAtLastOp part).2 with
+  | none => rfl
+  | some v => simp [h, Pep440.opCriteria]
+
+/-- The compatible-release operator: `~=V` (at least two release segments)
+    matches exactly the versions `v` with `V ≤ v < U`, `U` being `V`'s release
+    without its last segment and the new last segment incremented, same epoch
+    — a half-open range in the scheme's own order. -/
+theorem pep440_compatible_release_meaning (c v : Pep440.Ver) (h : 2 ≤ c.release.length) :
+    Pep440.opCriteria ['~', '='] c = some [⟨.ge, c⟩, ⟨.lt, Pep440.compatUpper c⟩] ∧
+    (Pep440.rangeMatch [⟨.ge, c⟩, ⟨.lt, Pep440.compatUpper c⟩] v = true ↔
+      Pep440.cmp c v ≠ .gt ∧ Pep440.cmp v (Pep440.compatUpper c) = .lt) := by
+  constructor
+  · have : ¬ c.release.length < 2 := by omega
+    simp [Pep440.opCriteria, this]
+  · exact pep440_range_half_open c (Pep440.compatUpper c) v
+
+/-- `~=2.2.3` is `>=2.2.3, <2.3`. -/
+example : (Pep440.parseRange "~= 2.2.3".toList).map (fun r => r.map fun c => (c.op, Pep440.toStr c.v)) =
+    some [(.ge, "2.2.3".toList), (.lt, "2.3".toList)] := by decide
+
+/-- Wildcards are not implemented — and not rejected either: `==1.*` is read
+    as `==1` (the unanchored pattern stops before `.*`), so it does not match
+    1.5, which PEP 440 says it should.  (Outside the statement of C12; recorded
+    as an observation.) -/
+example : (do
+    let r ← Pep440.parseRange "==1.*".toList
+    let v ← Pep440.parse "1.5".toList
+    let w ← Pep440.parse "1.0".toList
+    pure (r.map (·.op), Pep440.rangeMatch r v, Pep440.rangeMatch r w)) = some ([.eq], false, true) := by decide
 
 /-- Equal PEP 440 versions are interchangeable. -/
 theorem pep440_equal_interchangeable (a b x : Pep440.Ver) (h : Pep440.cmp a b = .eq) :
